@@ -218,7 +218,11 @@ def update_resource_class(req):  # noqa
     context.can(policies.UPDATE)
 
     # Use JSON validation to validation resource class name.
-    util.extract_json('{"name": "%s"}' % name, schema.PUT_RC_SCHEMA_V1_2)
+    # NOTE: serialise the name properly. Interpolating it into JSON text
+    # would validate the *decoded* text (e.g. CUSTOM_\u0041 decodes to
+    # CUSTOM_A) while the raw name is what gets stored.
+    util.extract_json(jsonutils.dumps({'name': name}),
+                      schema.PUT_RC_SCHEMA_V1_2)
 
     status = 204
     try:
